@@ -18,7 +18,8 @@ open("/verif/seeded/README.md", "w").write("""# Seeded changes
 Each directory holds one change to boostorg/gil produced by an independent sub-agent that saw only the property text
 (`patch.diff`), its demonstration (`demo.cpp`: fails with the change, passes without), its notes and `meta.json`.
 Every change compiles and keeps the 132 pinned tests green. `tools/reseed.sh` applies each to /repo, runs every
-claimed check, reverts, and regenerates this table.
+claimed check, reverts, and regenerates this table. The harvest column shows the exit codes at the time the seed arrived;
+alarms of other properties there (C11, C13) came from genuine defects of the then-unchanged tree that were repaired afterwards.
 
 | seed | property | file(s) changed | checks that fired when harvested | rules that fire now |
 |------|----------|-----------------|----------------------------------|---------------------|
